@@ -142,6 +142,68 @@ BigCases == [k \in DOMAIN BigSeq |->
                         ELSE [size |-> Size(b), center2 |-> Center2(b), center2_free |-> Center2(b)]]]
 
 \* --------------------------------------------------------------------------
+\* group "emptyops": scaling by POSITIVE factors and translation of boxes without points, through both operand orders
+\* (r = box op v, l = v op box).  Boxes: the default-constructed empty box; boxes inverted in the first / the last / every
+\* axis; intersections of two boxes that are disjoint along the first / the last axis (all finite coordinates even, so the
+\* factors 1/2 and 3/2 give integers).  Expected values are the definition (ScaleQ / TranslateB); the laws LawScaleEmpty /
+\* LawTranslateEmpty / LawScalePair / LawTranslatePair say what they mean: still no points, still the identity of extend.
+\* --------------------------------------------------------------------------
+EvenInverted(S) == [lo |-> [i \in 1..D |-> IF i \in S THEN 4 ELSE -2], hi |-> [i \in 1..D |-> IF i \in S THEN -2 ELSE 2]]
+\* two non-empty boxes separated along axis k (k = 0: along every axis), overlapping in the other axes
+SepPair(k) == << [lo |-> [i \in 1..D |-> -4], hi |-> [i \in 1..D |-> IF i = k \/ k = 0 THEN -2 ELSE 2]],
+                 [lo |-> [i \in 1..D |-> IF i = k \/ k = 0 THEN 2 ELSE -2], hi |-> [i \in 1..D |-> 4]] >>
+\* ... and two that touch in the face x[1] = 0 (their intersection is flat, not empty)
+TouchPair == << [lo |-> [i \in 1..D |-> -4], hi |-> [i \in 1..D |-> IF i = 1 THEN 0 ELSE 2]],
+                [lo |-> [i \in 1..D |-> IF i = 1 THEN 0 ELSE -2], hi |-> [i \in 1..D |-> 4]] >>
+EOBoxes == << [b |-> EmptyBox(D), cls |-> "empty-default"],
+              [b |-> EvenInverted({1}), cls |-> "inverted"], [b |-> EvenInverted({D}), cls |-> "inverted"], [b |-> EvenInverted(1..D), cls |-> "inverted"],
+              [b |-> Intersection(SepPair(1)[1], SepPair(1)[2]), cls |-> "disjoint-intersection"],
+              [b |-> Intersection(SepPair(D)[1], SepPair(D)[2]), cls |-> "disjoint-intersection"],
+              [b |-> Intersection(SepPair(0)[1], SepPair(0)[2]), cls |-> "disjoint-intersection"] >>
+\* positive factors n / den: 1, 2, distinct per axis, large, 1/2, 3/2 and 1/2 mixed
+EOFactors == << [n |-> [i \in 1..D |-> 1], den |-> 1], [n |-> [i \in 1..D |-> 2], den |-> 1], [n |-> [i \in 1..D |-> i], den |-> 1],
+                [n |-> [i \in 1..D |-> 1000], den |-> 1], [n |-> [i \in 1..D |-> 1], den |-> 2],
+                [n |-> [i \in 1..D |-> IF i % 2 = 1 THEN 3 ELSE 1], den |-> 2] >>
+EOTrans   == << [i \in 1..D |-> 0], [i \in 1..D |-> 7], [i \in 1..D |-> -4], [i \in 1..D |-> IF i % 2 = 1 THEN -3 ELSE 5] >>
+EOPts     == SetToSeq(Tuples({-2, 0, 3}, D))
+EOResult(b, r) ==
+  IF IsCanonicalEmpty(b)
+  THEN [empty |-> TRUE, lo |-> r.lo, hi |-> r.hi, contains |-> [k \in DOMAIN EOPts |-> ContainsPt(r, EOPts[k])],
+        extend |-> [k \in DOMAIN EOPts |-> Box(ExtendPt(r, EOPts[k]))]]
+  ELSE [empty |-> IsEmpty(r), lo |-> r.lo, hi |-> r.hi, contains |-> [k \in DOMAIN EOPts |-> ContainsPt(r, EOPts[k])]]
+ScaleEmptyCase(e, f) ==
+  LET r == ScaleQ(e.b, f.n, f.den) IN
+  [a |-> "ScaleEmpty", cls |-> e.cls, arg |-> [lo |-> e.b.lo, hi |-> e.b.hi, v |-> f.n, den |-> f.den, pts |-> EOPts],
+   exp |-> [r |-> EOResult(e.b, r), l |-> EOResult(e.b, r)]]
+TranslateEmptyCase(e, v) ==
+  LET r == TranslateB(e.b, v) IN
+  [a |-> "TranslateEmpty", cls |-> e.cls, arg |-> [lo |-> e.b.lo, hi |-> e.b.hi, v |-> v, den |-> 1, pts |-> EOPts],
+   exp |-> [r |-> EOResult(e.b, r), l |-> EOResult(e.b, r)]]
+EOPairs == << [p |-> SepPair(1), cls |-> "apart"], [p |-> SepPair(D), cls |-> "apart"], [p |-> SepPair(0), cls |-> "apart"],
+              [p |-> TouchPair, cls |-> "touching"] >>
+PairOut(x, y, img) == [inter_of_images_empty |-> IsEmpty(Intersection(x, y)), image_of_inter_empty |-> IsEmpty(img), disjoint_images |-> Disjoint(x, y)]
+ScalePairCase(q, f) ==
+  LET o == PairOut(ScaleQ(q.p[1], f.n, f.den), ScaleQ(q.p[2], f.n, f.den), ScaleQ(Intersection(q.p[1], q.p[2]), f.n, f.den)) IN
+  [a |-> "ScalePair", cls |-> q.cls, arg |-> [a |-> Box(q.p[1]), b |-> Box(q.p[2]), v |-> f.n, den |-> f.den], exp |-> [r |-> o, l |-> o]]
+TranslatePairCase(q, v) ==
+  LET o == PairOut(TranslateB(q.p[1], v), TranslateB(q.p[2], v), TranslateB(Intersection(q.p[1], q.p[2]), v)) IN
+  [a |-> "TranslatePair", cls |-> q.cls, arg |-> [a |-> Box(q.p[1]), b |-> Box(q.p[2]), v |-> v, den |-> 1], exp |-> [r |-> o, l |-> o]]
+EOCases == IF Group # "emptyops" THEN <<>> ELSE
+  [k \in 1..(Len(EOBoxes) * Len(EOFactors)) |-> ScaleEmptyCase(EOBoxes[((k - 1) \div Len(EOFactors)) + 1], EOFactors[((k - 1) % Len(EOFactors)) + 1])]
+  \o [k \in 1..(Len(EOBoxes) * Len(EOTrans)) |-> TranslateEmptyCase(EOBoxes[((k - 1) \div Len(EOTrans)) + 1], EOTrans[((k - 1) % Len(EOTrans)) + 1])]
+  \o (IF D = 1 THEN <<>> ELSE
+      [k \in 1..(Len(EOPairs) * Len(EOFactors)) |-> ScalePairCase(EOPairs[((k - 1) \div Len(EOFactors)) + 1], EOFactors[((k - 1) % Len(EOFactors)) + 1])]
+      \o [k \in 1..(Len(EOPairs) * Len(EOTrans)) |-> TranslatePairCase(EOPairs[((k - 1) \div Len(EOTrans)) + 1], EOTrans[((k - 1) % Len(EOTrans)) + 1])])
+\* the laws on exactly the emitted inputs
+EOLaws == /\ \A i \in DOMAIN EOBoxes : IsEmpty(EOBoxes[i].b)
+          /\ \A i \in DOMAIN EOBoxes, j \in DOMAIN EOFactors :
+                Divisible(EOBoxes[i].b, EOFactors[j].n, EOFactors[j].den)
+                /\ LawScaleEmpty(EOBoxes[i].b, EOFactors[j].n, EOFactors[j].den, -6..6, {EOPts[k] : k \in DOMAIN EOPts})
+          /\ \A i \in DOMAIN EOBoxes, j \in DOMAIN EOTrans : LawTranslateEmpty(EOBoxes[i].b, EOTrans[j], -6..6, {EOPts[k] : k \in DOMAIN EOPts})
+          /\ \A i \in DOMAIN EOPairs, j \in DOMAIN EOFactors : LawScalePair(EOPairs[i].p[1], EOPairs[i].p[2], EOFactors[j].n, EOFactors[j].den)
+          /\ \A i \in DOMAIN EOPairs, j \in DOMAIN EOTrans : LawTranslatePair(EOPairs[i].p[1], EOPairs[i].p[2], EOTrans[j])
+
+\* --------------------------------------------------------------------------
 \* group "xfm": xfmBounds must contain the image of every lattice point of the box
 \* --------------------------------------------------------------------------
 \* all sign matrices (entries +-1), signed and scaled permutations, and a deterministic family with entries in -2..2
@@ -208,11 +270,13 @@ Cases == CASE Group = "box" -> BoxCases
            [] Group = "pairinv" -> PairInvCases
            [] Group = "vec" -> VecCases
            [] Group = "big" -> BigCases
+           [] Group = "emptyops" -> EOCases
            [] Group = "rayempty" -> RayEmptyCases
            [] Group = "xfm" -> XfmCases
            [] Group = "ray" -> RayCases
 
 ASSUME Group = "ray" => RayLaws
+ASSUME Group = "emptyops" => EOLaws
 ASSUME Group = "rayempty" => \A c \in RayEmptySet : RayBoxIsEmpty(c) /\ LawRayEmptyBox(c, KProbe)
 ASSUME Group = "xfm" => \A k \in DOMAIN XfmSeq : LET x == XfmSeq[k] IN LawXfm(<<x[1][1], x[1][2], x[1][3], x[2]>>, x[3], AX)
 ASSUME ndJsonSerialize(OutFile, Cases)
